@@ -116,6 +116,19 @@ def handle (args : List String) : String :=
   | ["roll_idx", d, big, sh] => (do
       let d ← pInt d; let big ← pInt big; let sh ← pInt sh
       pure (out "-" (showNats (roll.stepIdx d.toNat big.toNat sh)) (showNats (roll.specIdx d.toNat sh)))).getD bad
+  | ["unfold_idx", d, z, st] => (do
+      let d ← pInt d; let z ← pInt z; let st ← pInt st
+      let sh (m : List (List Int)) : String :=
+        "[" ++ ",".intercalate (m.map (fun (r : List Int) => "[" ++ ",".intercalate (r.map toString) ++ "]")) ++ "]"
+      pure (out "-" (sh (unfold_.modelIdx d z st)) (sh (unfold_.specIdx d z st)))).getD bad
+  | ["diag_pos", r, c, o] => (do
+      let r ← pInt r; let c ← pInt c; let o ← pInt o
+      let sh (l : List (Option (Int × Int))) : String :=
+        "[" ++ ",".intercalate (l.map (fun p => match p with | some (i, j) => toString (i * c + j + 1) | none => "0")) ++ "]"
+      pure (out "-" (sh (diagonal.modelPositions r c o)) (sh (diagonal.specPositions r c o)))).getD bad
+  | ["slice_map", d, a, b, c, _] => (do
+      let d ← pInt d; let a ← pOptInt a; let b ← pOptInt b; let c ← pOptInt c
+      pure (out "-" (showNats (sliceIdx d (optI a 0) (optI b INT64_MAX) (optI c 1))) (showNats (slice.specIdx d a b c)))).getD bad
   | ["slice_idx", d, a, b, c] => (do
       let d ← pInt d; let a ← pInt a; let b ← pInt b; let c ← pInt c
       pure (out "-" (showNats (sliceIdx d a b c)) "-")).getD bad
